@@ -769,17 +769,32 @@ def ulp_out(lf, v):
 
 
 def so2_coded(a, b, t):
-    """SO2StateSpace::interpolate as coded (after the F4 fix), in IEEE double"""
+    """SO2StateSpace::interpolate as coded (after the F4 and F61 fixes: both branches wrapped), in IEEE double"""
     diff = b - a
     if abs(diff) <= PI:
-        return a + diff * t
-    diff = 2.0 * PI - diff if diff > 0.0 else -2.0 * PI - diff
-    v = a - diff * t
+        v = a + diff * t
+    else:
+        diff = 2.0 * PI - diff if diff > 0.0 else -2.0 * PI - diff
+        v = a - diff * t
     if v >= PI:
         v -= 2.0 * PI
     elif v < -PI:
         v += 2.0 * PI
     return v
+
+
+MOBIUS_ROUNDING = ("mobius cylinder branch: rounding carries u onto the seam, SO2 interpolate wraps it to the other side "
+                   "and v is not mirrored")
+
+
+def mobius_seam_rounding(fu, bu, tt):
+    """Mobius cylinder branch (|du| <= pi) whose SO(2) value from + diff*t rounds onto / past the seam, so that the
+    (repaired) SO(2) clause wraps it to the other side (F156)"""
+    d = bu - fu
+    if abs(d) > PI:
+        return False
+    v = fu + d * tt
+    return v >= PI or v < -PI
 
 
 def klein_coded(u1, v1, u2, v2, t):
@@ -1002,7 +1017,10 @@ def oracle_line(sp, line, out):
             ovf = ", |to - from| > INT_MAX: the int difference to - from overflows" if uk == "disc" and abs(b[li0][0] - a[li0][0]) > 2147483647 else ""
             for tv, flag, dk, clause, name in ((0.0, "cef", "cdfr", "endpoint0", "from"), (1.0, "cet", "cdrt", "endpoint1", "to")):
                 if t == tv and f[flag][ui] != "1" and not (f[dk][ui] != "-" and bf(f[dk][ui]) <= cslack):
-                    fails.append({"clause": clause, "culprit": uk, "class": "t=%d%s" % (tv, ovf),
+                    cls_ = "t=%d%s" % (tv, ovf)
+                    if uk == "mobius" and mobius_seam_rounding(a[li0][0], b[li0][0], t):
+                        cls_ = MOBIUS_ROUNDING
+                    fails.append({"clause": clause, "culprit": uk, "class": cls_,
                                   "what": "component %d (%s) of interpolate(from,to,%d) is not that of %s (its equalStates is false, its distance %s)"
                                           % (ui, uk, tv, name, f[dk][ui] if f[dk][ui] == "-" else bf(f[dk][ui]))})
         if f["sb"] != ["1"] and f.get("enf") == ["1"]:
@@ -1089,6 +1107,13 @@ def oracle_line(sp, line, out):
                             if abs(abs(m2 - v1) - PI) <= 1e-6 and coded_r == (rv2[i][0], rv2[i + 1][0]) \
                                     and coded_d == (dv2[i][0], dv2[i + 1][0]):
                                 cls = "klein seam branch, mirror(to.v) half a turn from from.v (tie between the two arcs)"
+                if owners == ["mobius"]:
+                    s3v_ = [vals(lf_, x_) for lf_, x_ in zip(lv, split_state(lv, f["s3"]))]
+                    for i, lf in enumerate(lv):
+                        if lf["owner"] == "mobius" and lf.get("role") == "u" and (
+                                mobius_seam_rounding(s3v_[i][0], b[i][0], u) or mobius_seam_rounding(a[i][0], b[i][0], s) or
+                                mobius_seam_rounding(a[i][0], b[i][0], s + (1.0 - s) * u)):
+                            cls = MOBIUS_ROUNDING
                 worst = max([x for _, x in bad_units] + [d])
                 fails.append({"clause": "reparam", "culprit": "+".join(owners) or sp[0], "class": cls,
                               "what": "interpolate(interpolate(a,b,s),b,u) is %.6g away from interpolate(a,b,s+(1-s)u) (s=%r,u=%r; judged per "
@@ -1160,23 +1185,19 @@ def correspondence(script, impl, model):
             if o != m:
                 res.append((i + 1, "diff", "line", False))
             continue
-        # an implementation that carries the PROPOSED F61 repair (notes/C07-fix-F61.diff: the short SO(2) branch is
-        # wrapped too) is accepted as well: the driver prints that variant as *_f61; the two variants differ only where
-        # rounding carries the short branch onto +pi
-        follows_f61 = any(k_ + "_f61" in fm and fm[k_ + "_f61"] != fm[k_] and fo.get(k_) == fm[k_ + "_f61"] for k_ in ("r", "s3", "direct"))
         for key in ("r", "s3", "direct", "sb", "ef", "et"):
             if key not in fm:
                 continue
-            want = fm[key + "_f61"] if follows_f61 and key + "_f61" in fm else fm[key]
             if key in ("sb", "ef", "et"):
-                if fo.get(key) != want:
+                if fo.get(key) != fm[key]:
                     res.append((i + 1, "diff", key, False))
                 continue
-            c = cmp_tokens(lv, fo.get(key, []), want)
+            c = cmp_tokens(lv, fo.get(key, []), fm[key])
             if c != "same":
-                res.append((i + 1, c, key, key == "r" and fo.get("r") == fm.get("old")))
-        if follows_f61:
-            res.append((i + 1, "f61", "r", False))
+                # label a tree that lost a fix: the implementation equals a FORMER variant of the SO(2) clause
+                # (before the F61 fix / before the F4 fix) exactly where it differs from the current one
+                former = fo.get(key) in (fm.get("old"), fm.get("old61"), fm.get(key + "_old61"))
+                res.append((i + 1, c, key, former))
     return res
 
 
@@ -1308,11 +1329,8 @@ def run(ck):
                 ck.drift_events += 1
                 ck.count("drift:" + key)
                 continue
-            if kind == "f61":
-                ck.count("implementation-follows-the-proposed-F61-repair (accepted variant)")
-                continue
             if idx in bad_lines:
-                ck.count("disagreement-on-a-line-the-oracle-rejects" + (":impl-matches-pre-fix-SO2-clause" if is_old else ""))
+                ck.count("disagreement-on-a-line-the-oracle-rejects" + (":impl-matches-a-former-SO2-clause (F4/F61 fix lost)" if is_old else ""))
                 continue
             ck.disagreements += 1
             gk = ("corr", key, "pre-fix" if is_old else "", "")
@@ -1321,6 +1339,7 @@ def run(ck):
                                             "what": "model and implementation disagree on `%s`" % key}, impl, model)
                 order.append(gk)
 
+    order.sort(key=lambda k_: 0 if k_[0] == "oracle" else 1)     # concrete failing inputs first
     for key in order[:12]:
         script, idx, rec, impl, model = groups[key]
         small = minimal(script, idx)
@@ -1336,7 +1355,7 @@ def run(ck):
             ck.report(record, script=small, expected=m, observed=o, found_input=False, engine="spaceinterp",
                       obligation="correspondence spaceinterp: StateSpace::interpolate vs OmplModel.SpaceInterp.interpolate differ on `%s`%s; the "
                                  "oracle accepts the implementation's output on this line (no failing input found by the seam-family search)"
-                                 % (rec["culprit"], " (the implementation matches the SO(2) clause before the F4 fix)" if rec["class"] else ""))
+                                 % (rec["culprit"], " (the implementation matches a former SO(2) clause: the F4 or F61 fix is missing)" if rec["class"] else ""))
             ck.log("correspondence disagreement on `%s` at line %d" % (rec["culprit"], idx))
     return 0
 
@@ -1356,10 +1375,8 @@ def replay(ck, data):
     for idx, rec in fails:
         print("PROPERTY FAILS at line %d [%s / %s / %s]: %s" % (idx, rec["clause"], rec["culprit"], rec["class"], rec["what"]))
     diffs = [d for d in correspondence(script, impl, model) if d[1] == "diff"]
-    if any(d[1] == "f61" for d in correspondence(script, impl, model)):
-        print("(the implementation follows the proposed F61 repair on some line: accepted variant)")
     for idx, kind, key, is_old in diffs:
-        print("model and implementation disagree at line %d on `%s`%s" % (idx, key, " (implementation = pre-fix SO(2) clause)" if is_old else ""))
+        print("model and implementation disagree at line %d on `%s`%s" % (idx, key, " (implementation = a former SO(2) clause: F4 / F61 fix missing)" if is_old else ""))
     if fails or diffs or rc != 0:
         return 1
     print("no failure on the current tree")
